@@ -565,6 +565,155 @@ def one(n, f, op, client="mfl", variant=None, bad=False):
     return True, detail
 
 
+# ------------------------------------------------------------------- walkers: subscribers that mutate the walker / raise
+OUTCOME_CLAUSE = False
+
+
+class HandlerFault(Exception):
+    """What a faulty 'modified' subscriber raises."""
+
+
+# Calls that either FAIL or CHANGE the contents (never a successful no-op: for those the statement allows 0 or 1 notification),
+# as (name, arity of new items).  Used for the outer history and for what a subscriber does from inside its notification.
+RE_OPS = ("append", "insert0", "pop", "pop0", "set0", "extend2", "pop99", "remove-absent")
+HANDLER_ACTIONS = (None, "raise", "append", "pop0", "insert0", "set0", "pop99", "extend2")
+
+
+def _re_apply(lst, name, fresh):
+    """One call of RE_OPS on `lst` (a plain list or a walker); new items come from `fresh()` in execution order."""
+    if name == "append":
+        lst.append(fresh())
+    elif name == "insert0":
+        lst.insert(0, fresh())
+    elif name == "pop":
+        lst.pop()
+    elif name == "pop0":
+        lst.pop(0)
+    elif name == "set0":
+        lst[0] = fresh()
+    elif name == "extend2":
+        lst.extend([fresh(), fresh()])
+    elif name == "pop99":
+        lst.pop(99)
+    elif name == "remove-absent":
+        lst.remove(_leaf(98, True))
+
+
+class _Fresh:
+    def __init__(self):
+        self.j = 0
+
+    def __call__(self):
+        self.j += 1
+        return _leaf(200 + self.j, True)
+
+
+def _reference_history(n, script, history):
+    """The statement, on a plain list: every successful content-changing call -- whoever makes it, the caller or a subscriber
+    from inside a notification, before or after some subscriber raised -- is followed by exactly one notification, delivered at
+    once (so a call made from inside a notification is notified before the outer call returns); a failed call by none.
+    Returns (outcome per outer call, notifications as snapshots of the tags, final tags)."""
+    plain = [_leaf(i, True) for i in range(n)]
+    fresh = _Fresh()
+    log = []
+    calls = [0]
+
+    def call(name):
+        trial = list(plain)
+        _re_apply(trial, name, fresh)  # (raises IndexError / ValueError: nothing changed, nobody notified)
+        plain[:] = trial
+        notify()
+
+    def notify():
+        log.append([w.tag for w in plain])
+        k = calls[0]
+        calls[0] += 1
+        act = script[k] if k < len(script) else None
+        if act == "raise":
+            raise HandlerFault
+        if act is not None:
+            try:
+                call(act)
+            except (IndexError, ValueError):
+                pass
+
+    outcomes = []
+    for name in history:
+        try:
+            call(name)
+        except (IndexError, ValueError, HandlerFault) as e:
+            outcomes.append(type(e).__name__)
+        else:
+            outcomes.append("ok")
+    return outcomes, log, [w.tag for w in plain]
+
+
+def reentrant_one(client, n, f, script, history):
+    """A walker with (first) a passive recording subscriber and (second) a scripted one: on its k-th notification it does
+    script[k] -- nothing, raise, or a call on the walker (list errors of that call caught by the subscriber itself)."""
+    cl = CLIENTS[client]
+    walker = cl.cls([_leaf(i, True) for i in range(n)])
+    if n:
+        walker.focus = f
+    fresh = _Fresh()
+    log = []
+    calls = [0]
+
+    def scripted():
+        k = calls[0]
+        calls[0] += 1
+        act = script[k] if k < len(script) else None
+        if act == "raise":
+            raise HandlerFault
+        if act is not None:
+            try:
+                _re_apply(walker, act, fresh)
+            except (IndexError, ValueError):
+                pass
+
+    urwid.connect_signal(walker, "modified", lambda: log.append([w.tag for w in walker]))
+    urwid.connect_signal(walker, "modified", scripted)
+    outcomes = []
+    for name in history:
+        try:
+            _re_apply(walker, name, fresh)
+        except (IndexError, ValueError, HandlerFault) as e:
+            outcomes.append(type(e).__name__)
+        except Exception as e:  # noqa: BLE001
+            outcomes.append(f"unexpected {type(e).__name__}: {e}"[:120])
+        else:
+            outcomes.append("ok")
+    want = _reference_history(n, script, history)
+    got = (outcomes, log, [w.tag for w in walker])
+    detail = {"client": client, "reentrant": True, "n": n, "focus": f, "script": list(script), "history": list(history),
+              "outcomes": repr(got[0]), "notified": repr(got[1]), "final": repr(got[2]),
+              "want_outcomes": repr(want[0]), "want_notified": repr(want[1]), "want_final": repr(want[2])}
+    if got[2] != want[2]:
+        return False, detail | {"why": "contents differ from a plain list under the same calls (the subscribers' calls included)"}
+    if got[1] != want[1]:
+        return False, detail | {"why": "not exactly one 'modified' notification after every successful content-changing call (nested in a notification / "
+                                       "after a subscriber raised)"}
+    # (how each outer call ENDS is compared in a check of its own, OUTCOME_CLAUSE: on the unchanged tree a SimpleFocusListWalker
+    #  call whose subscriber shortens the walker ends with IndexError from the stale pre-computed focus -- reported as a candidate defect)
+    if OUTCOME_CLAUSE and got[0] != want[0]:
+        return False, detail | {"why": "a call ended differently than on a plain list with the same subscribers"}
+    return True, detail
+
+
+def _reentrant_family(chk, client, maxn, depth, hist_len):
+    import itertools
+
+    scripts = [s for d in range(1, depth + 1) for s in itertools.product(HANDLER_ACTIONS, repeat=d) if s[-1] is not None]
+    histories = list(itertools.product(RE_OPS, repeat=hist_len))
+    for n in range(maxn + 1):
+        for f in sorted({0, n - 1} if n else {0}):
+            for script in scripts:
+                for history in histories:
+                    ok, detail = reentrant_one(client, n, f, script, history)
+                    chk.case((client, "reentrant", n, f, script, history), ok, None if ok else detail, nontrivial=True,
+                             sample={"client": client, "n": n, "focus": f, "script": list(script), "history": list(history)})
+
+
 def _family(chk, client, variant, maxn, steps, with_bad=False, dedupe_above=None):
     for n in range(maxn + 1):
         rg = range(-n - 2, n + 3)
@@ -586,7 +735,10 @@ def _task(arg):
     part = Check("part", "")
     with warnings.catch_warnings():
         warnings.simplefilter("ignore")
-        _family(part, client, variant, maxn, steps, with_bad=with_bad, dedupe_above=raw_upto)
+        if variant == "reentrant":
+            _reentrant_family(part, client, *maxn)
+        else:
+            _family(part, client, variant, maxn, steps, with_bad=with_bad, dedupe_above=raw_upto)
     return part.evaluations, len(part.nontrivial), part.failures, part.samples
 
 
@@ -636,7 +788,9 @@ def _run(tier, seed):
                  "'modified' subscriber: same contents and errors as a plain list, unchanged on error, the signal exactly once per successful content-changing call "
                  "(<= 1 otherwise) and after the mutation, never on failure; SimpleFocusListWalker: the statement's focus rule; SimpleListWalker: focus in range; "
                  "distinct = (client, variant, n, focus, op)", True, bound)
-    out.append(_spread(walk, [(client, variant, cmaxn, steps, False, raw_upto) for client in ("sflw", "slw") for variant in CLIENTS[client].variants]))
+    re_bound = (3, 2, 2) if tier == "quick" else (4, 3, 3)  # (list length, subscriber script length = nesting depth, outer history length)
+    out.append(_spread(walk, [(client, variant, cmaxn, steps, False, raw_upto) for client in ("sflw", "slw") for variant in CLIENTS[client].variants]
+                       + [(client, "reentrant", re_bound, None, False, None) for client in ("sflw", "slw")]))
     if tier != "quick":
         r = rng(seed)
         seqc = Check("C16/op-sequences", "random sequences of 3 operations (seeded) on lists of length <= 4: invariants after every step", False, "sequence length 3, 20000 sequences")
@@ -668,5 +822,8 @@ def _run(tier, seed):
 
 
 def replay(check, case):
+    if case.get("reentrant"):
+        ok, detail = reentrant_one(case["client"], case["n"], case["focus"], tuple(case["script"]), tuple(case["history"]))
+        return {"outcome": "not-reproduced" if ok else "confirmed", "detail": detail}
     ok, detail = one(case["n"], case["focus"], eval(case["op"]), case.get("client", "mfl"), case.get("variant"), bad="BAD" in case["op"])  # noqa: S307
     return {"outcome": "not-reproduced" if ok else "confirmed", "detail": detail | {}}
